@@ -85,3 +85,164 @@ class GreedyPrunePartition(Contract):
         path.oblige("lemma", "cumsum-of-diff-telescopes/base", Implies(L(c) > 0, c[0] == x[1] - x[0]))
         path.oblige("lemma", "cumsum-of-diff-telescopes/step",
                     Implies(And(1 <= k, k < L(c), c[k - 1] == x[k] - x[0]), c[k] == x[k + 1] - x[0]))
+
+
+# ------------------------------------------------------------------ CoolerCoarsener.__init__ (edges)
+class _StubCooler:
+    """ASSUMED model of Cooler(source_uri) as far as CoolerCoarsener.__init__ uses it (trusted):
+    binsize, chromsizes, _load_dset('indexes/chrom_offset' | 'indexes/bin1_offset'), bins()[cols][:]"""
+    pyvc_symbolic = True
+
+    def __init__(self, off, O, binsize):
+        self.off, self.O, self.binsize = off, O, binsize
+
+    def pyvc_getattr(self, I, attr, node):
+        from pyvc.values import LibFunc
+        if attr == "binsize":
+            return self.binsize
+        if attr == "chromsizes":
+            return Opaque("chromsizes")
+        if attr == "_load_dset":
+            return LibFunc("Cooler._load_dset", lambda I, path: {"indexes/chrom_offset": self.off, "indexes/bin1_offset": self.O}[path])
+        if attr == "bins":
+            return LibFunc("Cooler.bins", lambda I: _StubSel())
+        raise Exception("Cooler." + attr + " is not part of the assumed model")
+
+
+class _StubSel:
+    def pyvc_getitem(self, I, key, node):
+        return self if isinstance(key, list) else Opaque("old_bins")
+
+
+class _StubGS:
+    """ASSUMED model of GenomeSegmentation(chromsizes, new_bins).idmap: chromosome name -> 0..nchrom-1 in order"""
+    pyvc_symbolic = True
+
+    def __init__(self, nchrom):
+        self.nchrom = nchrom
+
+    def pyvc_getattr(self, I, attr, node):
+        from pyvc.values import LibFunc
+        if attr == "idmap":
+            return self
+        if attr == "items":
+            name = z3.Function("chromname", z3.IntSort(), z3.StringSort())
+            return LibFunc("Series.items", lambda I: SymList(self.nchrom, lambda k: (name(k), k)))
+        raise Exception("GenomeSegmentation." + attr + " is not part of the assumed model")
+
+
+@contract
+class CoarsenerInit(Contract):
+    """C08: the pixel partition handed to the workers consists of offsets of COARSE-ROW STARTS only:
+    every edge is bin1_offset[chrom_offset[c] + g*factor] for a chromosome c and a coarse row g of c
+    (or nnz), in non-decreasing order from 0 to nnz - so no group of pixels that falls into one coarse
+    row is ever split across two spans, for every factor and chunk size."""
+    target = "cooler._reduce:CoolerCoarsener.__init__"
+    props = ["C08"]
+
+    def configs(self, v):
+        from pyvc.values import LibFunc
+
+        def mk(fixed):
+            def f(v):
+                nchrom = v.Int("nchrom")
+                off = v.Arr("old_chrom_offset", n=nchrom + 1)
+                nb = v.Int("nbins")
+                O = v.Arr("old_bin1_offset", n=nb + 1)
+                binsize = v.Int("old_binsize") if fixed else None
+                slf = v.Obj("CoolerCoarsener", "cooler._reduce")
+                slf.attrs["coarsen_bins"] = LibFunc("coarsen_bins", lambda I, *a, **k: Opaque("new_bins"))
+                return dict(self=slf, source_uri="src.cool", factor=v.Int("factor"), chunksize=v.Int("chunksize"),
+                            columns=["count"], agg=None, batchsize=1, map=Opaque("map"),
+                            __free__={"Cooler": LibFunc("Cooler", lambda I, uri: _StubCooler(off, O, binsize)),
+                                      "GenomeSegmentation": LibFunc("GenomeSegmentation", lambda I, cs, bins: _StubGS(nchrom)),
+                                      "isinstance": LibFunc("isinstance", lambda I, x, t: True),
+                                      "int": LibFunc("int", lambda I, x: x)},
+                            __ghost__={"nchrom": nchrom, "off": off, "O": O, "nb": nb})
+            return f
+        yield "fixed", mk(True)
+        yield "variable", mk(False)
+
+    def _g(self):
+        return self._v.path.ghost
+
+    def requires(self, self_, source_uri, factor, chunksize, columns, agg, batchsize, map):
+        g = self._g()
+        nchrom, off, O, nb = g["nchrom"], g["off"], g["O"], g["nb"]
+        return [factor >= 2, chunksize >= 1, nchrom >= 1, nb >= 1, off[0] == 0, off[nchrom] == nb,
+                forall2(0, nchrom + 1, 0, nchrom + 1, lambda c1, c2: Implies(c1 < c2, off[c1] < off[c2])),
+                O[0] == 0, nondecreasing(O), O[nb] < 2 ** 50]
+
+    # loop 0: for _chrom, i in self.gs.idmap.items()
+    def _idx(self, S, t):
+        g = self._g()
+        return g["off"][S.cc(t)] + S.gg(t) * S.factor
+
+    def _inv(self, S):
+        g = self._g()
+        off, O = g["off"], g["O"]
+        c = S.it
+        n, at = seq_view(S.edges)
+        idx = lambda t: self._idx(S, t)
+        return {
+            "edges-are-coarse-row-starts": forall(0, n, lambda t: And(
+                0 <= S.cc(t), S.cc(t) < c, 0 <= S.gg(t), off[S.cc(t)] <= idx(t), idx(t) < off[S.cc(t) + 1],
+                at(t) == O[idx(t)])),
+            "row-index-increasing": forall2(0, n, 0, n, lambda t1, t2: Implies(t1 < t2, idx(t1) < idx(t2))),
+            "rows-of-done-chromosomes-only": forall(0, n, lambda t: idx(t) < off[c]),
+            "first-edge": And(Implies(c > 0, n >= 1), Implies(n >= 1, And(S.cc(0) == 0, S.gg(0) == 0))),
+            "count": n >= c,
+        }
+
+    def _prepare(self, S, I):
+        if isinstance(S.edges, list) and not S.edges:
+            S.set_local("edges", SymList(0, lambda k: z3.IntVal(0)))
+
+    def _ghost_init(self, S, I):
+        return {"cc": (lambda t: z3.IntVal(0)), "gg": (lambda t: z3.IntVal(0))}
+
+    def _ghost_step(self, S, I):
+        # the elements appended in this iteration: t in [n_old, n_new) -> chromosome i, coarse row t - n_old
+        n_new, _ = seq_view(S.edges)
+        c = S.it - 1
+        g = self._g()
+        off = g["off"]
+        cnt = cdiv(off[c + 1] - off[c], S.factor)
+        n_old = n_new - cnt
+        occ, ogg = S.cc, S.gg
+        S.set_ghost("cc", lambda t: z3.If(t < n_old, occ(t), c))
+        S.set_ghost("gg", lambda t: z3.If(t < n_old, ogg(t), t - n_old))
+
+    @property
+    def loops(self):
+        hv = lambda name: (lambda v: (lambda f: (lambda t: f(t)))(v.Fn(name, "int", "int")))
+        return {0: LoopSpec(self._inv, prepare=self._prepare, ghost_init=self._ghost_init, ghost_step=self._ghost_step,
+                            havoc={"__g_cc": hv("g.cc"), "__g_gg": hv("g.gg"),
+                                   "edges": lambda v: (lambda f, n: (v.assume(n >= 0), SymList(n, lambda k: f(k)))[1])(v.Fn("edges", "int", "int"), v.Int("edges.n"))})}
+
+    def ensures(self, result, ghost, self_, source_uri, factor, chunksize, columns, agg, batchsize, map):
+        g = self._g()
+        off, O, nb, nchrom = g["off"], g["O"], g["nb"], g["nchrom"]
+        E = self_.attrs["edges"]
+        m = L(E)
+        out = {
+            "edges-from-0-to-nnz": And(m >= 1, E[0] == 0, E[m - 1] == O[nb]),
+            "edges-nondecreasing": forall2(0, m, 0, m, lambda k1, k2: Implies(k1 <= k2, E[k1] <= E[k2])),
+            "factor-kept": self_.attrs["factor"] == factor,
+        }
+        # the key clause: every edge handed to the workers is the pixel offset of a coarse-row start
+        # (chromosome cc, coarse row gg of it) or nnz.  Witnesses: the ghost of the loop (cc, gg) composed
+        # with the index ghost of the _greedy_prune_partition call.
+        calls = [c for c in self._v.path.ghost.get("calls", []) if c[0].endswith(":_greedy_prune_partition")]
+        if calls and "cc" in ghost:
+            idx = calls[-1][3]["idx"]
+            n_all, _ = seq_view(ghost["__locals__"]["edges"])
+            n_loop = n_all - 1
+            cc, gg = ghost["cc"], ghost["gg"]
+            row = lambda k: off[cc(idx(k))] + gg(idx(k)) * factor
+            out["every-edge-is-a-coarse-row-start-or-nnz"] = forall(0, m, lambda k: If(
+                idx(k) < n_loop,
+                And(0 <= cc(idx(k)), cc(idx(k)) < nchrom, 0 <= gg(idx(k)), off[cc(idx(k))] <= row(k),
+                    row(k) < off[cc(idx(k)) + 1], E[k] == O[row(k)]),
+                E[k] == O[nb]))
+        return out
